@@ -13,6 +13,7 @@ import (
 	"encoding/hex"
 	"encoding/json"
 	"fmt"
+	"os"
 	"sort"
 	"strings"
 
@@ -106,7 +107,16 @@ func run(c *core.Ctx) int {
 	var infos []*segInfo
 	caseSeg := []int{}
 	rng := core.NewRng(c.Seed, 5)
+	only := map[string]bool{} // debugging aid: C05_ONLY=name,name restricts the workload (such a run reports BROKEN by design)
+	for _, n := range strings.Split(os.Getenv("C05_ONLY"), ",") {
+		if n != "" {
+			only[n] = true
+		}
+	}
 	for _, op := range wops.Table {
+		if len(only) > 0 && !only[op.Name] {
+			continue
+		}
 		if !refsem.Has(op) {
 			c.Inconclusive("row-without-reference:" + op.Name)
 			continue
